@@ -1,6 +1,7 @@
 import PyPhysim.Model.Proto
 import PyPhysim.Model.Gray
 import PyPhysim.Model.C01
+import PyPhysim.Model.C01Alias
 import PyPhysim.Generated.Conversion
 open PyPhysim.Proto PyPhysim.Gray PyPhysim.C01 PyPhysim.Generated
 
@@ -19,6 +20,37 @@ def showE {α} (f : α → String) : Except PyErr α → String
   | .ok v => f v
   | .error e => "error:" ++ toString e
 
+/-! R16 histories on the object-with-caller-arrays model (`Model/C01Alias.lean`), exact over `Rat`.
+    Words: `F<b>=<re,im,..>` refill complex array b · `I<b>=<i,..>` refill index array b ·
+    `T=<re,im,..>` table made by the object · `S<b>` setConstellation(array b), keeping the array · `C<b>` the same, copying it · `D<b>` demodulate(array b) ·
+    `M<b>` modulate(index array b).  Reply: the outputs of the calls, `;`-separated. -/
+def parseAOp (w : String) : Option (AOp Rat) :=
+  let tag := w.take 1
+  let rest := (w.drop 1).toString
+  match tag.toString, rest.splitOn "=" with
+  | "F", [b, v] => do
+      let b ← b.toNat?
+      let v ← parseRatList? v >>= pairs
+      some (.fillC b v)
+  | "I", [b, v] => do
+      let b ← b.toNat?
+      let v ← parseNatList? v
+      some (.fillI b v)
+  | "T", ["", v] => do
+      let v ← parseRatList? v >>= pairs
+      some (.install v)
+  | "S", [b] => b.toNat?.map .setConstellation
+  | "C", [b] => b.toNat?.map .setConstellationCopy
+  | "D", [b] => b.toNat?.map .demodulate
+  | "M", [b] => b.toNat?.map .modulate
+  | _, _ => none
+
+def showAOut : AOut Rat → Option String
+  | .none => none
+  | .indexes l => some (showList toString l)
+  | .symbols (.ok l) => some (showList (fun p => showRat p.1 ++ "," ++ showRat p.2) l)
+  | .symbols (.error e) => some ("error:" ++ toString e)
+
 def handle : List String → String
   -- exact nearest-point detection on rational points: demodq <c> <samples>
   | ["demodq", c, r] =>
@@ -30,6 +62,12 @@ def handle : List String → String
     | some c, some r => showList (fun s =>
         let ds := (c.map (dist2 s)).toArray.qsort (· < ·)
         if ds.size < 2 then "1/1" else showRat (ds[1]! - ds[0]!)) r
+    | _, _ => "bad-op"
+  | ["margin2", c, r] =>  -- the two smallest squared distances `d1|d2` per sample (relative margins, R15)
+    match parseRatList? c >>= pairs, parseRatList? r >>= pairs with
+    | some c, some r => showList (fun s =>
+        let ds := (c.map (dist2 s)).toArray.qsort (· < ·)
+        if ds.size < 2 then "0/1|1/1" else showRat ds[0]! ++ "|" ++ showRat ds[1]!) r
     | _, _ => "bad-op"
   | ["modulate", m, idx] =>
     match m.toNat?, parseNatList? idx with
@@ -57,6 +95,10 @@ def handle : List String → String
       | .ok kk => showE showPts (relabel (qamNatural (α := Float) l)
           ((List.range (l*l)).map (qamPos binary2gray (kk / 2) l)))
       | .error e => "error:" ++ toString e
+    | none => "bad-op"
+  | "arun" :: ws =>
+    match ws.mapM parseAOp with
+    | some ops => showList id ((aOutputs (freshObj []) ops).filterMap showAOut) ";"
     | none => "bad-op"
   | ["accept", "psk", m] => match m.toNat? with | some m => toString (isPow2 m) | none => "bad-op"
   | ["accept", "qam", m] => match m.toNat? with | some m => toString (isEvenPow2 m) | none => "bad-op"
